@@ -36,7 +36,7 @@ ASSUMPTIONS = [
     "expit is an oracle (libm on the nearest double) in the model",
 ]
 EXPLANATION = ("Model: Model/Chunks.v, Model/DistMat.v, Model/Mse.v. Modelled, not verified: numpy array storage, h5py, "
-               "tqdm; the CLI wrapper calculate_distance_matrix.main is not exercised.")
+               "tqdm; the CLI wrapper calculate_distance_matrix.main is exercised in-process on real Screen/ThetaHolder files by implementation-only predicate cases (kind cli).")
 
 
 def _tmpdir():
@@ -98,6 +98,15 @@ def gen(rng, tier):
         rng.shuffle(vals)
         table = [[vals[i * n + j] for j in range(n)] for i in range(n)]
         yield dict(kind="pipeline", n=n, c=c, order=order, table=table)
+    # the CLI wrapper, in-process, on real Screen / ThetaHolder files (implementation-only predicate)
+    for _ in range(6 if tier == "quick" else 40):
+        n1, n2 = rng.randint(1, 3), rng.randint(0, 3)
+        n = n1 + n2
+        npairs = n * (n - 1) // 2
+        c = rng.choice([1, 2, 3, max(1, npairs), npairs + 2])
+        order = list(range(c)) + [rng.randrange(c) for _ in range(rng.randint(0, 2))]
+        rng.shuffle(order)
+        yield dict(kind="cli", chains=[n1, n2], c=c, order=order, alphas=[rng.randint(-24, 24) / 8.0 for _ in range(n)])
     # mse
     for _ in range(60 if tier == "quick" else 600):
         m = rng.choice([0, 1, 1, 2, 3, 5, 8])
@@ -169,6 +178,8 @@ def run(desc):
         feats = ["pipeline"] + (["repeat"] if len(order) != len(set(order)) else []) + (["covers"] if covers else ["missing-chunk"]) \
             + (["n_chunks>pairs"] if c > n * (n - 1) // 2 else []) + (["trivial"] if n < 2 else []) + (["zero-value"] if any(table[a][b] == 0 for a in range(n) for b in range(a)) else [])
         return dict(wire=[1, n, c, order, table], impl=impl, pred=pred, features=feats, cmp=cmp_result())
+    if k == "cli":
+        return _run_cli(desc)
     if k == "mse":
         a, b, sg = desc["a"], desc["b"], desc["sigmoid"]
         import warnings
@@ -195,6 +206,64 @@ def run(desc):
         feats = ["mse", "sigmoid" if sg else "raw"] + (["identical"] if a == b else []) + (["trivial"] if len(a) == 0 else [])
         return dict(wire=[2, sg, [frac(x) for x in a], [frac(x) for x in b]], impl=impl, pred=pred, features=feats, cmp=cmp_result(cmpf))
     raise ValueError(k)
+
+
+def _run_cli(desc):
+    """calculate_distance_matrix.main() per chunk index on real files, then concat + to_dense"""
+    import sys
+    from unittest import mock
+
+    from scipy.special import expit
+
+    from batchie.cli import calculate_distance_matrix
+    from batchie.core import ThetaHolder
+    from batchie.data import Screen
+    from batchie.distance_calculation import ChunkedDistanceMatrix
+    from batchie.models.sparse_combo import SparseDrugComboMCMCSample
+
+    alphas, chains, c, order = desc["alphas"], desc["chains"], desc["c"], desc["order"]
+    n = len(alphas)
+    d = _tmpdir()
+    try:
+        scr = Screen(treatment_names=np.array([["a"], ["b"], ["a"]], dtype=str), treatment_doses=np.array([[1.0], [2.0], [1.0]]),
+                     sample_names=np.array(["s", "s", "t"], dtype=str), plate_names=np.array(["p", "p", "q"], dtype=str))
+        scr.save_h5(os.path.join(d, "screen.h5"))
+        files, pos = [], 0
+        for ci, m in enumerate(chains):
+            if m == 0:
+                continue
+            h = ThetaHolder(m)
+            for a in alphas[pos:pos + m]:
+                h.add_theta(SparseDrugComboMCMCSample(W=np.zeros((2, 1)), W0=np.zeros((2,)), V2=np.zeros((2, 1)), V1=np.zeros((2, 1)),
+                                                      V0=np.zeros((2,)), alpha=float(a), precision=1.0))
+            pos += m
+            fn = os.path.join(d, "thetas_%d.h5" % ci)
+            h.save_h5(fn)
+            files.append(fn)
+
+        def go():
+            ms = []
+            for p_, idx in enumerate(order):
+                out = os.path.join(d, "dist_%d.h5" % p_)
+                argv = ["calculate_distance_matrix", "--data", os.path.join(d, "screen.h5"), "--thetas"] + files + [
+                    "--distance-metric", "MSEDistance", "--n-chunks", str(c), "--chunk-index", str(idx), "--output", out]
+                common.run_cli_main(calculate_distance_matrix, argv)
+                ms.append(ChunkedDistanceMatrix.load(out))
+            return ChunkedDistanceMatrix.concat(ms).to_dense()
+        out = impl_call(go)
+    finally:
+        shutil.rmtree(d, ignore_errors=True)
+    pred = None
+    if isinstance(out, ImplError):
+        pred = "CLI pipeline over a covering family of chunks failed: %r" % (out,)
+    else:
+        v = [float(np.clip(expit(a), 0.01, 0.99)) for a in alphas]
+        for i in range(n):
+            for j in range(n):
+                e = 0.0 if i == j else (float(expit(v[i])) - float(expit(v[j]))) ** 2
+                if abs(out[i, j] - e) > 1e-12:
+                    pred = "CLI-assembled matrix entry (%d,%d) = %r, metric on the two predictions = %r" % (i, j, float(out[i, j]), e)
+    return dict(wire=None, impl=None, pred=pred, features=["cli"] + (["trivial"] if n < 2 else []) + (["two-chain-files"] if all(chains) else []))
 
 
 def shrink(desc):
